@@ -25,12 +25,16 @@ KINDS = {
     'addpath-peer-sends': dict(peer_as=65000, asn4=True, addpath='receive'),
     'extnh': dict(peer_as=65001, asn4=True, nexthop=True),
     'big': dict(peer_as=65000, asn4=True, extended=True),
+    # our own AS does not fit 2 bytes: the default AS_PATH of eBGP carries it (AS_TRANS + AS4_PATH to a 2-byte peer)
+    'local4-ebgp4': dict(peer_as=65001, asn4=True, local_as=4200000001),
+    'local4-ebgp2': dict(peer_as=65001, asn4=False, local_as=4200000001),
 }
 
 
 def neighbor_text(kind, static):
     k = KINDS[kind]
-    cap = '' if k['asn4'] else 'asn4 disable;'
+    # a 4-byte local AS is only announced with the ASN4 capability: on 'local4-ebgp2' it is the PEER which lacks it
+    cap = '' if (k['asn4'] or k.get('local_as', 0) > 65535) else 'asn4 disable;'
     extra = ''
     if k.get('addpath'):
         cap += {'both': ' add-path send/receive;', 'send': ' add-path send;', 'receive': ' add-path receive;'}[k['addpath']]
@@ -40,7 +44,7 @@ def neighbor_text(kind, static):
         extra += ' nexthop { ipv4 unicast ipv6; ipv4 nlri-mpls ipv6; ipv4 mpls-vpn ipv6; }'
     if k.get('extended'):
         cap += ' extended-message enable;'
-    return H.NEIGHBOR_TMPL.format(local_as=65000, peer_as=k['peer_as'], hold=180, capability=cap, families=FAMILIES, extra=extra + ' static { ' + static + ' }')
+    return H.NEIGHBOR_TMPL.format(local_as=k.get('local_as', 65000), peer_as=k['peer_as'], hold=180, capability=cap, families=FAMILIES, extra=extra + ' static { ' + static + ' }')
 
 
 def peer_open(kind):
@@ -203,13 +207,14 @@ def build(kind, routes):
 def expect_attrs(kind, exp):
     """type -> value bytes expected on the wire for this session (RFC 4271 5.1, 6793 4.2.2, 4456, 1997, 8092)"""
     k = KINDS[kind]
-    ibgp = k['peer_as'] == 65000
+    local_as = k.get('local_as', 65000)
+    ibgp = k['peer_as'] == local_as
     asn4 = k['asn4']
     a = exp['attrs']
     out = {1: bytes([a.get('origin', 0)])}
     path = a.get('as_path')
     if path is None:
-        path = [] if ibgp else [65000]
+        path = [] if ibgp else [local_as]
     w = 4 if asn4 else 2
     segs = ([(2, path)] if path else []) + ([(1, a['as_set'])] if a.get('as_set') else [])
     out[2] = b''.join(bytes([t, len(v)]) + b''.join((p if (asn4 or p < 65536) else 23456).to_bytes(w, 'big') for p in v) for t, v in segs)
